@@ -44,6 +44,8 @@ def configs(tier):
     for cs in (CLASS_SETS_Q if tier == "quick" else CLASS_SETS_T):
         for filt in ("none", "uf"):
             out.append({"classes": cs, "filter": filt, "clause": "table"})
+    for cs in ([["DE", "UE"]] if tier == "quick" else [["DE", "UE"], ["DE", "TE", "UE"]]):
+        out.append({"classes": cs, "filter": "uf", "clause": "table", "eq": True})
     # duality runs two queries on two symbolic vertices: 2 links (quick) / 3 links (thorough)
     duals = [["DE", "UE"], ["DE", "TE"], ["SD", "DE"], ["TE", "SU"]]
     if tier != "quick":
@@ -93,7 +95,9 @@ else:
 
 
 def scenario(B, p):
-    verts = make_vertices(B, 3)
+    # "eq": two of the vertices are distinct but compare equal (a Vertex subclass with value equality);
+    # the rules are about identity of the ends, not equality
+    verts = make_vertices(B, 3, ["EqVertex", "EqVertex", "Vertex"] if p.get("eq") else None)
     links = make_links(B, p["classes"])
     n = len(links)
     symbolic_assoc_state(B, verts, links, n, n, two_ended_wellformed=True)
